@@ -48,6 +48,8 @@ def main():
         if only and only != name: continue
         if match and match not in name: continue
         benign.append((name, d, props))
+    if "--benign-only" in sys.argv:
+        muts = []
     scratch = tempfile.mkdtemp(prefix="govc-self-", dir="/var/tmp")
     copy = os.path.join(scratch, "repo")
     try:
